@@ -5,7 +5,7 @@ patch=$1; shift; props="$@"; [ -z "$props" ] && props=$(seq -f "C%02g" 1 20)
 cd /repo && git status --short | grep -v '^??' && { echo "/repo not clean"; exit 2; }
 git -C /repo apply "$patch" || { echo "patch does not apply"; exit 2; }
 mkdir -p /verif/_build/harmless
-tag=$(basename $(dirname "$patch"))-$(basename "$patch" .diff)
+tag=$(basename $(dirname $(dirname "$patch")))-$(basename $(dirname "$patch"))-$(basename "$patch" .diff)
 for p in $props; do
   cp /verif/evidence/$p.json /verif/_build/evidence_$p.bak 2>/dev/null
   (cd /verif && ./run.sh $p quick > /verif/_build/harmless/$tag.$p.log 2>&1; echo "exit=$?" >> /verif/_build/harmless/$tag.$p.log)
